@@ -967,11 +967,13 @@ spif_dlinked_list_reverse(spif_dlinked_list_t self)
     spif_dlinked_list_item_t current, tmp;
 
     ASSERT_RVAL(!SPIF_LIST_ISNULL(self), FALSE);
+    tmp = (spif_dlinked_list_item_t) NULL;
     for (current = self->head; current; ) {
         tmp = current;
         current = current->next;
         SWAP(tmp->prev, tmp->next);
     }
+    self->tail = self->head;
     self->head = tmp;
     return TRUE;
 }
